@@ -41,7 +41,7 @@ RT_EXTERNALS = {
     '@isalnum': 'vp_isalnum', '@isupper': 'vp_isupper', '@islower': 'vp_islower', '@isprint': 'vp_isprint',
     '@ispunct': 'vp_ispunct', '@isblank': 'vp_isblank', '@iscntrl': 'vp_iscntrl', '@isgraph': 'vp_isgraph',
     '@tolower': 'vp_tolower', '@toupper': 'vp_toupper',
-    '@__errno_location': 'vp_errno_location', '@strerror': 'vp_strerror',
+    '@__errno_location': 'vp_errno_location', '@strerror': 'vp_strerror', '@strtol': 'vp_strtol',
 }
 NOOP_EXTERNALS = {'@_ZNSt8ios_base4InitC1Ev', '@_ZNSt8ios_base4InitD1Ev'}
 VP_PRIMS = {'@vp_nondet', '@vp_range', '@vp_assume', '@vp_assert', '@vp_witness', '@vp_observe', '@vp_capacity',
